@@ -171,7 +171,8 @@ VCpRange(r) ==
 VLit(r) ==
     LET d  == IF r.text # <<>> /\ (r.text[1] = 39 \/ r.text[1] = 34) THEN StringLit(r.text, 1) ELSE Fail(1, "no quote")
         ok == d.ok /\ d.i = Len(r.text) + 1
-    IN  IF ok /\ r.res # "decoded" THEN Rej("C09 valid string literal rejected", <<r.cls>>)
+    IN  IF Has(r, "nonjp") /\ r.nonjp THEN Rej("C13 compile raised a non-JSONPathError", <<r.cls>>)
+        ELSE IF ok /\ r.res # "decoded" THEN Rej("C09 valid string literal rejected", <<r.cls>>)
         ELSE IF ~ok /\ r.res = "decoded" THEN Rej("C09 invalid string literal accepted", <<d.why>>)
         ELSE IF ok /\ r.val # d.v THEN Rej("C09 string literal decoded to other code points", <<ToJson(d.v)>>)
         ELSE Acc
